@@ -1,4 +1,5 @@
 import LPVerif.Lemmas.CoreExec
+import LPVerif.Lemmas.ProfExact
 /-!
 # C01 — per-line hit counts are exact
 
@@ -73,5 +74,42 @@ theorem example_nonvacuous :
     pend (run (St.init exRegs) exEvs) [0] ⟨0,0⟩ 2 = 0 ∧
     closed (run (St.init exRegs) exEvs) [2, 3] ⟨0,0⟩ 2 = 2 ∧
     closed (run (St.init exRegs) exEvs) [2, 3] ⟨0,0⟩ 3 = 1 := by decide
+
+/-! ## the same at the level of the profiler object (`Model.Prof`)
+
+Histories are arbitrary lists of operations: functions come into existence, are registered (again and again), threads enable and
+disable (plainly or by count), trace events arrive — in any order, from any state.  `delivered` counts the LINE events of `(b, l)`
+that arrive while tracing is installed in their thread and the line is registered; `dropped` counts pending lines thrown away by a
+`disable()` that ran while the line was still executing (the mid-flight disable the property excludes). -/
+section profiler
+open LPVerif.Prof
+
+/-- **conservation for every history**: stored + pending + dropped = initial + delivered -/
+theorem profiler_hits_conserved (ops : List Op) (s : Prof.St) (lines : List Int) (threads : List Nat) (b : Blk) (l : Int)
+    (hl : ∀ c, (b, c) ∈ (s.run ops).core.abs.regs → c ∈ lines) (hln : lines.Nodup)
+    (hth : ∀ op ∈ ops, ∀ t, op.thread = some t → t ∈ threads) (htn : threads.Nodup) :
+    closed (s.run ops).core.abs lines b l + pend (s.run ops).core.abs threads b l + dropped s ops b l
+      = closed s.core.abs lines b l + pend s.core.abs threads b l + delivered s ops b l :=
+  run_conservation ops s lines threads b l hl hln hth htn
+
+/-- **C01 at the profiler**: starting from a fresh profiler, once no slot is pending at `l` and no `disable()` interrupted a
+    line, the stored hit count of `(b, l)` is exactly the number of LINE events delivered for it -/
+theorem profiler_hits_exact (ops : List Op) (lines : List Int) (threads : List Nat) (b : Blk) (l : Int)
+    (hl : ∀ c, (b, c) ∈ (Prof.St.init.run ops).core.abs.regs → c ∈ lines) (hln : lines.Nodup)
+    (hth : ∀ op ∈ ops, ∀ t, op.thread = some t → t ∈ threads) (htn : threads.Nodup)
+    (hq : pend (Prof.St.init.run ops).core.abs threads b l = 0) (hd : dropped Prof.St.init ops b l = 0) :
+    closed (Prof.St.init.run ops).core.abs lines b l = delivered Prof.St.init ops b l := by
+  have h := run_conservation ops Prof.St.init lines threads b l hl hln hth htn
+  have h0 : bal Prof.St.init lines threads b l = 0 := by
+    unfold bal Prof.St.init
+    simp only [abs_init, closed_init, pend_init]
+  unfold bal at h h0
+  omega
+
+/-- events that arrive while tracing is not installed in their thread change nothing at all -/
+theorem untraced_inert (s : Prof.St) (e : Ev) (h : s.tracing e.t = false) : s.step (.ev e) = s := by
+  simp [Prof.St.step, Prof.St.event, h]
+
+end profiler
 
 end LPVerif.Props.C01
